@@ -791,3 +791,28 @@ benign(
     ["C03"],
     (OPS, "    result = None\n    for array in arrays:\n        if initial_func is not None:", "    result = None\n    seen_shapes = []\n    for array in arrays:\n        seen_shapes.append(1)\n        if initial_func is not None:"),
 )
+# seeded round 2 (C15-3, C15-4)
+mutant(
+    "M128-index-patterns-keyed-by-array-name",
+    ["C15", "C01"],
+    "PROXY-KEYS-1",
+    (PBW, "    argindsstr: list[Any] = []\n    for name, ind in zip(array_names, inds, strict=True):\n        argindsstr.extend((name, ind))", "    arginds = dict(zip(array_names, inds))\n    argindsstr: list[Any] = []\n    for name in array_names:\n        argindsstr.extend((name, arginds[name]))"),
+)
+mutant(
+    "M129-index-patterns-in-numblocks-loop",
+    ["C15", "C01"],
+    "PROXY-KEYS-1",
+    (PBW, "        numblocks[name] = tuple(map(len, input_chunks))\n", "        numblocks[name] = tuple(map(len, input_chunks))\n        patterns[name] = inds[len(patterns)]\n"),
+    (PBW, "    numblocks: dict[str, tuple[int, ...]] = {}\n    for name, array in zip(array_names, arrays, strict=True):", "    numblocks: dict[str, tuple[int, ...]] = {}\n    patterns: dict[str, Any] = {}\n    for name, array in zip(array_names, arrays, strict=True):"),
+)
+benign(
+    "B-numblocks-dictcomp",
+    ["C15", "C01"],
+    (PBW, "    argindsstr: list[Any] = []\n    for name, ind in zip(array_names, inds, strict=True):\n        argindsstr.extend((name, ind))", "    argindsstr: list[Any] = []\n    for pair in zip(array_names, inds, strict=True):\n        argindsstr.extend(pair)"),
+)
+mutant(
+    "M130-fused-key-func-filters-predecessor-dict",
+    ["C15", "C02"],
+    "NEST-DISPATCH-1",
+    (PBW, "        func_args = tuple(\n            apply_blockwise_key_func(a, predecessor_back_key_functions_dict)\n            for a in args\n        )", "        live = {k: v for k, v in predecessor_back_key_functions_dict.items() if v is not None}\n        func_args = tuple(apply_blockwise_key_func(a, live) for a in args)"),
+)
